@@ -227,7 +227,13 @@ def cosim_membership(rp, tr: tracer.Tracer, rng: random.Random) -> Any:
             deny = [f for f in fleets if f not in v.membership.memberships]
             if deny:
                 under_way.append((e, (deny[0],)))
-    if under_way and rng.random() < 0.75:
+    waiting = [e for e in pool if hasattr(e, "dispatched_vehicle")]
+    if waiting and rng.random() < 0.6:
+        # a waiting request handed over to the OTHER fleet(s): whoever is sent to it from now on must belong to them
+        ent = rng.choice(waiting)
+        others = tuple(f for f in fleets if f not in ent.membership.memberships)
+        new = others or rng.choice([(fleets[0],), (fleets[-1],)])
+    elif under_way and rng.random() < 0.75:
         ent, new = rng.choice(under_way)
     try:
         sim2 = simulation_state_ops.modify_entity(sim, ent.set_membership(new))
